@@ -439,19 +439,22 @@ func (fc *fileController) rejuvenate(fileKey uint16) error {
 }
 
 func (fc *fileController) atDescriptorLimit() bool {
+	// The two pools are counted one after the other rather than under both locks at
+	// once: garbage collection holds the readers lock while it takes the writers lock
+	// (rejuvenate), so holding writers while waiting for readers here can deadlock
+	// with it as soon as another reader queues for the readers write lock.
 	fc.writers.RLock()
+	writerCount := len(fc.writers.open)
+	fc.writers.RUnlock()
 	fc.readers.RLock()
-	defer func() {
-		fc.readers.RUnlock()
-		fc.writers.RUnlock()
-	}()
+	defer fc.readers.RUnlock()
 	readerCount := 0
 	for _, f := range fc.readers.files {
 		f.RLock()
 		readerCount += len(f.open)
 		f.RUnlock()
 	}
-	return readerCount+len(fc.writers.open) >= fc.MaxDescriptors
+	return readerCount+writerCount >= fc.MaxDescriptors
 }
 
 func (fc *fileController) close() error {
